@@ -10,7 +10,6 @@ import (
 	"sort"
 	"strings"
 
-	"lwverif/internal/load"
 )
 
 func init() {
@@ -220,19 +219,21 @@ func checkC06(c *Ctx) {
 func checkC07(c *Ctx) {
 	r := c.Run
 	r.Exhaustive = true
-	r.Explanation = "Decides the per-payload clauses of C07 with the bit-precise abstract interpreter (engine E1): for each of the 29 MAC payload types (and DLSettings/Redundancy/ADRParam/Version) the encoder's accept condition is extracted as a BDD over the field bits and compared with the specification range (every in-range value accepted; no accepted value outside what the wire can carry), and decode(encode(v)) = v is proved for all accepted v at once by interpreting the decoder on the encoder's abstract output (scaled fields through the parametrisation F=100·q / 200·q and a linear-form domain). Size agreement: registry size = encoder length = decoder's exact-length test (decoder interpreted with size-1 and size+1 bytes must reject). The stream clauses (progress of decodeDataPayloadToMACCommands, registry writers, port-0 rule) are structural rules on SSA/AST. Sequences are covered through size agreement plus the stream rule (self-delimitation), not enumerated."
+	r.Explanation = "Decides the per-payload clauses of C07 with the bit-precise abstract interpreter (engine E1): for each of the 29 MAC payload types (and DLSettings/Redundancy/ADRParam/Version) the encoder's accept condition is extracted as a BDD over the field bits and compared with the specification range (every in-range value accepted; no accepted value outside what the wire can carry), and decode(encode(v)) = v is proved for all accepted v at once by interpreting the decoder on the encoder's abstract output (scaled fields through the parametrisation F=100·q / 200·q and a linear-form domain). Size agreement: registry size = encoder length = decoder's exact-length test (decoder interpreted with size-1 and size+1 bytes must reject). The stream decoder is interpreted on every ordered pair of commands of one direction (R10) and on the registry accessor for all 2 x 256 (direction, CID) pairs (R9); registry writers and the no-input-write rule are effect rules; its panic-freedom and progress belong to C09."
 	r.Trusted = []string{"internal/absint BDD domain and operator semantics", "models of encoding/binary, append, copy, make", "props/wirespec_mac.go ranges"}
 	r.Assumptions = []string{"enum-typed fields (DwellTime) are restricted to their declared constants", "DeviceTimeAns is analysed on wire-resolution inputs (sec·1e9 + frac·3906250); its missing range guard is outside the domain (signed 64-bit division of a free value) and is stated as not analysed"}
 	r.Rule("R1.accept", "encoder accept condition vs specification range: spec values accepted; accepted values representable; equal where the range is armed")
 	r.Rule("R2.inverse", "decode(encode(v)) = v for every accepted v (no silent truncation, scale exact)")
 	r.Rule("R4.size", "registry size = encoded length = decoder's exact length test")
-	r.Rule("R5.stream", "decodeDataPayloadToMACCommands: checks remaining >= size+1 before slicing, advances by 1+size, unknown CID has size 0")
 	r.Rule("R6.registry-writers", "the only post-init writer of macPayloadRegistry is RegisterProprietaryMACCommand: under Lock, keyed by the caller's direction and CID, after rejecting CID < 128")
 	r.Rule("R8.no-input-write", "no decoder writes through its input slice (commands of one stream share the buffer: a write would corrupt the following command)")
 	r.Rule("R7.port0", "marshalPayload refuses a *MACCommand unless FPort is set and 0")
 	r.Rule("R9.registry-lookup", "GetMACPayloadAndSize resolves each of the 2 x 256 (direction, CID) pairs to the specified payload type and size or to an error; registering a proprietary CID with a size changes that pair only")
 	registryLookupE1(c, "R9.registry-lookup")
 	c07Sequences(c, "R10.sequence")
+	// the stream decoder and the registry accessor read the registry and keep no state of their own (a size table
+	// built on first use would miss later registrations)
+	statelessRoots(c, "R11.stateless", "decodeDataPayloadToMACCommands", "GetMACPayloadAndSize")
 	for _, s := range macSpecs {
 		res := runCodec(c, s)
 		r.Saw("codecs analysed", s.name())
@@ -247,87 +248,9 @@ func checkC07(c *Ctx) {
 		emitFacts(c, res, "R2.inverse", "inv")
 	}
 	registryRule(c, "R4.size")
-	c07Stream(c)
+	c07Port0(c)
 	ruleRegistryWriters(c, "R6.registry-writers")
 	ruleNoInputWrite(c, "R8.no-input-write", nil)
-}
-
-// c07Stream: structural rule on decodeDataPayloadToMACCommands and marshalPayload (typed AST).
-func c07Stream(c *Ctx) {
-	r := c.Run
-	pk := c.Prog.Pkg("")
-	fd := load.FuncDecl(pk, "decodeDataPayloadToMACCommands")
-	if fd == nil {
-		r.Unknown("R5.stream", "decodeDataPayloadToMACCommands", "", "anchor function present", "missing")
-		return
-	}
-	src := func(n ast.Node) string { return types.ExprString(n.(ast.Expr)) }
-	// find the loop and within it: guard `len(X[i:]) < plLen+1` -> error return; slice X[i:i+1+plLen]; i = i + plLen; loop post i++
-	var loop *ast.ForStmt
-	ast.Inspect(fd.Body, func(n ast.Node) bool {
-		if f, ok := n.(*ast.ForStmt); ok && loop == nil {
-			loop = f
-		}
-		return true
-	})
-	if loop == nil {
-		r.Unknown("R5.stream", "decodeDataPayloadToMACCommands/loop", c.Prog.Rel(fd.Pos()), "decode loop", "not found")
-		return
-	}
-	pos := c.Prog.Rel(loop.Pos())
-	guardOK, sliceOK, advOK, unknownZero := false, false, false, false
-	var guardPos, slicePos ast.Node
-	for _, st := range loop.Body.List {
-		switch x := st.(type) {
-		case *ast.IfStmt:
-			// unknown CID => plLen = 0
-			if x.Init != nil && x.Else != nil {
-				if as, ok := firstAssign(x.Body); ok && strings.HasSuffix(src(as.Lhs[0]), "plLen") && src(as.Rhs[0]) == "0" {
-					unknownZero = true
-				}
-			}
-			if be, ok := x.Cond.(*ast.BinaryExpr); ok && be.Op.String() == "<" {
-				l, rr := src(be.X), src(be.Y)
-				if strings.HasPrefix(l, "len(") && strings.HasSuffix(l, "[i:])") && (rr == "plLen+1" || rr == "plLen + 1" || rr == "1+plLen" || rr == "1 + plLen") {
-					if retErr(x.Body) {
-						guardOK = true
-						guardPos = x
-					}
-				}
-			}
-		case *ast.AssignStmt:
-			if len(x.Lhs) == 1 && src(x.Lhs[0]) == "i" && len(x.Rhs) == 1 {
-				rs := strings.ReplaceAll(src(x.Rhs[0]), " ", "")
-				if rs == "i+plLen" || rs == "plLen+i" {
-					advOK = true
-				}
-			}
-		}
-		ast.Inspect(st, func(n ast.Node) bool {
-			if se, ok := n.(*ast.SliceExpr); ok && se.High != nil && se.Low != nil {
-				lo := strings.ReplaceAll(src(se.Low), " ", "")
-				hi := strings.ReplaceAll(src(se.High), " ", "")
-				if lo == "i" && (hi == "i+1+plLen" || hi == "i+plLen+1" || hi == "1+i+plLen") {
-					sliceOK = true
-					slicePos = se
-				}
-			}
-			return true
-		})
-	}
-	postOK := false
-	if inc, ok := loop.Post.(*ast.IncDecStmt); ok && src(inc.X) == "i" && inc.Tok.String() == "++" {
-		postOK = true
-	}
-	ordered := guardOK && sliceOK && guardPos.Pos() < slicePos.Pos()
-	if !guardOK && !sliceOK && !advOK {
-		r.Unknown("R5.stream", "decodeDataPayloadToMACCommands/shape", pos, "recognisable guard/slice/advance statements", "loop body has an unrecognised shape")
-		return
-	}
-	r.Check(guardOK && ordered, "R5.stream", "decodeDataPayloadToMACCommands/guard-before-slice", pos, "`len(b[i:]) < plLen+1` returns an error before `b[i:i+1+plLen]`", fmt.Sprintf("guard=%v slice=%v ordered=%v", guardOK, sliceOK, ordered), true)
-	r.Check(advOK && postOK, "R5.stream", "decodeDataPayloadToMACCommands/advance", pos, "index advances by plLen and the loop post by 1 (1+size per command)", fmt.Sprintf("i=i+plLen:%v i++:%v", advOK, postOK), true)
-	r.Check(unknownZero, "R5.stream", "decodeDataPayloadToMACCommands/unknown-cid", pos, "a CID without registered payload has size 0", fmt.Sprint(unknownZero), true)
-	c07Port0(c)
 }
 
 // c07Port0 (E1): MACPayload.MarshalBinary with MAC commands in FRMPayload succeeds only with FPort = 0 (and no FOpts),
